@@ -153,9 +153,10 @@ pub fn run_parse<T: PegParserAdvanced<()> + Debug>(input: &str, mode: Mode) -> R
     TRACE.with(|t| t.borrow_mut().clear());
     let s = ParseSettings::default();
     let r = catch_unwind(AssertUnwindSafe(|| match mode {
-        Mode::Plain => T::parse_advanced::<NoopTracer>(input, &s, ()),
+        // the public entry points themselves where they exist: `parse` and `parse_with_trace`
+        Mode::Plain => <T as peginator::PegParser>::parse(input),
         Mode::Recorded => T::parse_advanced::<RecTracer>(input, &s, ()),
-        Mode::Indented => T::parse_advanced::<IndentedTracer>(input, &s, ()),
+        Mode::Indented => <T as peginator::PegParser>::parse_with_trace(input),
         Mode::Yielding => T::parse_advanced::<YieldTracer>(input, &s, ()),
     }));
     finish(r)
